@@ -29,7 +29,7 @@ func init() {
 	register(&CheckDef{
 		ID:    "C14",
 		Level: "exploration",
-		Rule: "for each corpus grammar x option set {go, -u, -o, -o -u, typescript}: the run with canonical order at every map-range visit is recorded (sites and sizes), then re-run with ONE visit taking each alternative order (all n!-1 permutations for n<=6, beyond that reversal, all rotations and all adjacent transpositions - reported as a cap), with every visit reversed / rotated, and (thorough) with two deviating visits on the smallest grammars; the output file must be byte-identical every time; plus every history of <=2 (quick) / <=3 (thorough) generation calls in one process against single-call outputs; plus 6 runs of the native CLI binary per (grammar, options) (free-running pass, Go's own random order); " +
+		Rule: "for each corpus grammar x option set {go, -u, -o, -o -u, typescript}: the run with canonical order at every map-range visit is recorded (sites and sizes), then re-run with ONE visit taking each alternative order (all n!-1 permutations for n<=4 quick / n<=6 thorough, beyond that reversal, all rotations and all adjacent transpositions - reported as a cap), with every visit reversed / rotated, and (thorough) with two deviating visits on the smallest grammars; the output file must be byte-identical every time; plus every history of <=2 (quick) / <=3 (thorough) generation calls in one process against single-call outputs; plus 6 runs of the native CLI binary per (grammar, options) (free-running pass, Go's own random order); " +
 			"evaluations = generator executions; non-trivial = execution with at least one visit of >=2 keys in non-canonical order; distinct = distinct (grammar, options, schedule)",
 		Assumptions: []string{
 			"map iteration is the only source of nondeterminism in yaccgo (19 range-over-map sites found by go/types in the current tree; no time, randomness, goroutine races affecting output: the lexer goroutine feeds an unbuffered channel consumed in order)",
@@ -156,9 +156,13 @@ func c14Eval(w *Worker, c *c14Case) {
 		if v.N < 2 || sitesBad[v.Site] {
 			continue
 		}
-		alts, capped := verifsched.Alternatives(v.N)
+		maxPerm := 4
+		if w.Thorough() {
+			maxPerm = verifsched.MaxPermN
+		}
+		alts, capped := verifsched.AlternativesUpTo(v.N, maxPerm)
 		if capped {
-			w.Cap(fmt.Sprintf("visits with more than %d keys: reversal, rotations and adjacent transpositions only", verifsched.MaxPermN))
+			w.Cap(fmt.Sprintf("visits with more than %d keys: reversal, rotations and adjacent transpositions only", maxPerm))
 		}
 		w.Max("keys_in_one_visit", int64(v.N))
 		for _, a := range alts {
@@ -270,7 +274,7 @@ func c14Histories(w *Worker) {
 func c14Native(w *Worker, corpus []gram.Named) {
 	bin := filepath.Join(w.Scratch, "yaccgo-native")
 	cmd := exec.Command("go", "build", "-o", bin, "./yaccgo")
-	cmd.Dir = "/repo"
+	cmd.Dir = repoDir()
 	if out, err := cmd.CombinedOutput(); err != nil {
 		w.Note("INTERNAL: cannot build the native CLI: " + string(out))
 		return
